@@ -342,10 +342,16 @@ fn accept<A: QElem>(sorted: &[A], rd: &Reading, st: St, r: &A) -> Result<(), Str
             let err = rr.sub(&exact).abs();
             if A::FLOAT {
                 let mx = l.abs().max(&h.abs());
-                let tol = mx.mul(&Dy::pow2(A::U_EXP + 3));
+                // forward error of the documented computation lo + fl(f * fl(hi - lo)) (Midpoint: f = 1/2, exact):
+                // |r - exact| <= 2u*f*|hi-lo| + u*|exact| to first order; judged with 4u*f*|hi-lo| + 2u*|exact| plus one
+                // subnormal step (the bound shrinks with the fraction, so an interpolation term that is dropped or
+                // mis-scaled is seen even when it is tiny relative to the operands)
+                let d = h.sub(&l).abs();
+                let fd = if st == St::Midpoint { d.half() } else { rd.frac.mul(&d) };
+                let tol = fd.mul(&Dy::pow2(A::U_EXP + 2)).add(&exact.abs().mul(&Dy::pow2(A::U_EXP + 1))).add(&Dy::pow2(if A::U_EXP == -53 { -1074 } else { -149 }));
                 let slack = mx.mul(&Dy::pow2(A::U_EXP + 1));
                 if !err.le(&tol) {
-                    return Err(format!("{:?}: result {} differs from exact {} by more than 8u*max(|lo|,|hi|) (lo={}, hi={}, fraction={})", st, r.show(), exact.show(), lo.show(), hi.show(), rd.frac.show()));
+                    return Err(format!("{:?}: result {} differs from exact {} by more than 4u*f*|hi-lo| + 2u*|exact| (lo={}, hi={}, fraction={})", st, r.show(), exact.show(), lo.show(), hi.show(), rd.frac.show()));
                 }
                 if rr.lt(&l.sub(&slack)) || h.add(&slack).lt(&rr) {
                     return Err(format!("{:?}: result {} outside [lo, hi] = [{}, {}]", st, r.show(), lo.show(), hi.show()));
